@@ -8,6 +8,8 @@ import (
 	"diagonal.works/b6"
 	"diagonal.works/b6/api"
 	"diagonal.works/b6/api/functions"
+	b6grpc "diagonal.works/b6/grpc"
+	"diagonal.works/b6/ingest"
 	pb "diagonal.works/b6/proto"
 	"verif/simrt"
 	"verif/simrt/ssync"
@@ -35,7 +37,59 @@ func init() {
 	})
 }
 
+// faultyWorlds hands out worlds whose k-th mutating call fails: a fault in
+// the real world that MergedChange's dry run on a canary overlay cannot
+// predict ("change partially applied").
+type faultyWorlds struct {
+	inner  ingest.Worlds
+	failAt int
+	calls  int
+}
+
+func (f *faultyWorlds) FindOrCreateWorld(id b6.FeatureID) ingest.MutableWorld {
+	return &faultyWorld{MutableWorld: f.inner.FindOrCreateWorld(id), f: f}
+}
+func (f *faultyWorlds) ListWorlds() []b6.FeatureID  { return f.inner.ListWorlds() }
+func (f *faultyWorlds) DeleteWorld(id b6.FeatureID) { f.inner.DeleteWorld(id) }
+
+type faultyWorld struct {
+	ingest.MutableWorld
+	f *faultyWorlds
+}
+
+var errInjectedWorldFault = fmt.Errorf("injected fault in the world")
+
+func (w *faultyWorld) tick() error {
+	w.f.calls++
+	if w.f.calls == w.f.failAt {
+		return errInjectedWorldFault
+	}
+	return nil
+}
+
+func (w *faultyWorld) AddFeature(f ingest.Feature) error {
+	if err := w.tick(); err != nil {
+		return err
+	}
+	return w.MutableWorld.AddFeature(f)
+}
+
+func (w *faultyWorld) AddTag(id b6.FeatureID, tag b6.Tag) error {
+	if err := w.tick(); err != nil {
+		return err
+	}
+	return w.MutableWorld.AddTag(id, tag)
+}
+
+func (w *faultyWorld) RemoveTag(id b6.FeatureID, key string) error {
+	if err := w.tick(); err != nil {
+		return err
+	}
+	return w.MutableWorld.RemoveTag(id, key)
+}
+
 type c26Req struct {
+	calls   int // mutating world calls the change makes when it applies
 	expr    string
 	ok      bool     // the model says the change applies
 	ids     []string // ids the model says it modifies
@@ -90,10 +144,32 @@ func runC26(rc *RC) {
 		rc.Fail("HARNESS/fixture", "%v", err)
 		return
 	}
-	lock := &ssync.RWMutex{}
-	ev := &api.Evaluator{Worlds: s.worlds, FunctionSymbols: functions.Functions(), Adaptors: functions.Adaptors(), Options: api.Options{Cores: 1}, Lock: lock}
+	lock, ev := s.lock, s.ev
 	_ = base
+	// world configurations: normal; read-only server (every change must be
+	// reported as failed); a world with an injected fault at its k-th
+	// mutating call (single client, so the model knows which request it hits)
+	cfg := rc.Pick(7, 1, 2)
+	var faulty *faultyWorlds
+	switch cfg {
+	case 1:
+		ro := ingest.ReadOnlyWorlds{Base: s.worlds.Base}
+		s.svc = b6grpc.NewB6Service(ro, api.Options{Cores: 1}, lock)
+		ev.Worlds = ro
+		name += "(read-only worlds)"
+		rc.Phase(name)
+	case 2:
+		faulty = &faultyWorlds{inner: s.worlds, failAt: rc.Range(1, 6)}
+		s.svc = b6grpc.NewB6Service(faulty, api.Options{Cores: 1}, lock)
+		ev.Worlds = faulty
+		name += "(world fault)"
+		rc.Phase(name)
+		rc.Configured("world-fault")
+	}
 	nClients := rc.Range(1, 3)
+	if cfg == 2 {
+		nClients = 1
+	}
 	rings := g.closedPathIDs()
 	var plans [][]c26Req
 	failing, succeeding := 0, 0
@@ -110,6 +186,28 @@ func runC26(rc *RC) {
 			rc.Case(c, plan[len(plan)-1].expr)
 		}
 		plans = append(plans, plan)
+	}
+	if cfg == 1 {
+		for _, plan := range plans {
+			for i := range plan {
+				plan[i].ok, plan[i].ids, plan[i].comment = false, nil, "the server is read-only"
+			}
+		}
+		failing, succeeding = 1, 1
+	}
+	if cfg == 2 {
+		// walk the single client's plan: mutating calls happen only when the
+		// dry run passes (for merged changes) and in order
+		calls := 0
+		for i := range plans[0] {
+			r := &plans[0][i]
+			n := r.calls
+			if r.ok && calls < faulty.failAt && faulty.failAt <= calls+n {
+				r.ok, r.ids, r.comment = false, nil, fmt.Sprintf("the world fails at its mutating call number %d", faulty.failAt)
+				rc.Probe("world-fault-hits-a-request")
+			}
+			calls += n
+		}
 	}
 	for _, plan := range plans {
 		for _, r := range plan {
@@ -150,6 +248,7 @@ func runC26(rc *RC) {
 						lock.RLock() // as ui.lockedHandler does around every request
 						v, err := ev.EvaluateExpression(e, b6.FeatureID{})
 						lock.RUnlock()
+						_ = functions.Functions
 						res.err = err
 						if ac, ok := v.(*api.AppliedChange); ok && err == nil {
 							res.ids, res.hasIDs = idsOfCollection(ac.Modified), true
@@ -198,13 +297,13 @@ func c26Gen(rc *RC, g *cityGen, rings []b6.FeatureID, client int, depth int) c26
 	v := fmt.Sprintf("v%d", g.valueCounter)
 	switch rc.Pick(5, 2, 2, 2, 3, 2) {
 	case 0:
-		return c26Req{expr: fmt.Sprintf("add-tag /%s (tag %q %q)", f, k, v), ok: true, ids: []string{f.String()}, comment: "tag on an existing point"}
+		return c26Req{expr: fmt.Sprintf("add-tag /%s (tag %q %q)", f, k, v), ok: true, calls: 1, ids: []string{f.String()}, comment: "tag on an existing point"}
 	case 1:
-		return c26Req{expr: fmt.Sprintf("add-tag /%s (tag %q %q)", missing, k, v), ok: false, comment: "tag on a feature that does not exist"}
+		return c26Req{expr: fmt.Sprintf("add-tag /%s (tag %q %q)", missing, k, v), ok: false, calls: 1, comment: "tag on a feature that does not exist"}
 	case 2:
-		return c26Req{expr: fmt.Sprintf("remove-tag /%s %q", f, k), ok: true, ids: []string{f.String()}, comment: "remove a tag from an existing point"}
+		return c26Req{expr: fmt.Sprintf("remove-tag /%s %q", f, k), ok: true, calls: 1, ids: []string{f.String()}, comment: "remove a tag from an existing point"}
 	case 3:
-		return c26Req{expr: fmt.Sprintf("remove-tag /%s %q", missing, k), ok: false, comment: "remove a tag from a feature that does not exist"}
+		return c26Req{expr: fmt.Sprintf("remove-tag /%s %q", missing, k), ok: false, calls: 1, comment: "remove a tag from a feature that does not exist"}
 	case 4:
 		if depth == 0 {
 			n := rc.Range(2, 3)
@@ -230,7 +329,11 @@ func c26Gen(rc *RC, g *cityGen, rings []b6.FeatureID, client int, depth int) c26
 				}
 				sort.Strings(ids)
 			}
-			return c26Req{expr: "merge-changes {" + strings.Join(parts, ", ") + "}", ok: ok, ids: ids, comment: why}
+			calls := 0
+			if ok {
+				calls = n // a merged change only touches the real world when its dry run passed
+			}
+			return c26Req{expr: "merge-changes {" + strings.Join(parts, ", ") + "}", ok: ok, calls: calls, ids: ids, comment: why}
 		}
 		fallthrough
 	default:
@@ -238,6 +341,6 @@ func c26Gen(rc *RC, g *cityGen, rings []b6.FeatureID, client int, depth int) c26
 		// corner of a ring moved far across so that the ring becomes invalid
 		newID := pointID(maxPoints + 2 + client%2)
 		lat, lng := gridE7(int(newID.Value-1)%maxPoints, 1)
-		return c26Req{expr: fmt.Sprintf("add-point (%.7f, %.7f) /%s {0: (tag %q %q)}", float64(lat)/1e7+0.0009, float64(lng)/1e7, newID, k, v), ok: true, ids: []string{newID.String()}, comment: "a new point"}
+		return c26Req{expr: fmt.Sprintf("add-point (%.7f, %.7f) /%s {0: (tag %q %q)}", float64(lat)/1e7+0.0009, float64(lng)/1e7, newID, k, v), ok: true, calls: 1, ids: []string{newID.String()}, comment: "a new point"}
 	}
 }
